@@ -1,5 +1,6 @@
 import CharsetProof.Lemmas.Total
 import CharsetProof.Props.C02
+import CharsetProof.Props.C02b
 open Charset
 #print axioms C02_from_bytes_total
 #print axioms C02_only_documented_error
@@ -9,6 +10,12 @@ open Charset
 #print axioms C02_current
 #print axioms C02_aliases_total
 #print axioms C02_panic_sites_covered
+#print axioms Md.C02_mess_ratio_total
+#print axioms Md.Dets.feedF_eq
+#print axioms Md.loopF_eq
+#print axioms chunkRetryF_eq
+#print axioms C02_chunk_retry_total
+#print axioms strict_nil_modelled
 #print axioms probe_total
 #print axioms detectLoop_total
 #print axioms findByCand_append
